@@ -53,6 +53,15 @@ def requests(ctx):
             rot.append(("rotate_complex_once", [["+" if c == "+" else "d" for c in s], list(s)]))
     rng.shuffle(rot)
     batches["rotate_complex_once/ill-formed"] = rot[: (20000 if quick else len(rot))]
+    # complex construction and structural views of a complex on ill-formed structures:
+    # a value or SecondaryStructureError, exactly as the model says
+    obj = []
+    for s in strs:
+        if "x" not in s and s and not gs.is_wf(s) and gs.nonempty_strands(s):
+            obj.append(("c03_history", [["+" if c == "+" else "d" for c in s], list(s),
+                                        [["pair_table"], ["is_connected"], ["exterior_domains"], ["get_paired_loc", [0, 0]]]]))
+    rng.shuffle(obj)
+    batches["ComplexS/ill-formed"] = obj[: (3000 if quick else 40000)]
     return batches, strs, big + bad
 
 
